@@ -1,5 +1,6 @@
 import Ufo2ftModel.Props.C13VFEval
 import Ufo2ftModel.Props.C13VFCert
+import Ufo2ftModel.Props.C13VFTotal
 /-!
 C13 (variable fonts): a concrete 3-glyph, 3-source family.
 
@@ -179,5 +180,67 @@ example : (renderAt wI wMsS 1 "A").Perm (renderAt wI wMs 1 "A") :=
 /-- … and the instance of `C13_vf_render` agrees with the direct computation -/
 example : renderAtF 5 wI wMsS (1/2) "A" = renderAt wI wMs (1/2) "A" := by
   rw [w_render_skip (1/2) 15 265 (by simp), w_render_src (1/2) 15 265 (by simp)]
+
+/-! ### totality: non-vacuity, and the two ways the model can fail on a `WFSkip` family -/
+
+/-- the witness family meets the hypotheses of `skipFamily_ok` / `C13_vf_render_total` (for every skip list) -/
+theorem w_total (skip : List String) : WFTotal wI wMs (rankOf wCert) skip := famCert_total wI wMs wCert (by decide +kernel) skip
+
+/-- `C13_vf_render_total` instantiated: the filter succeeds and the drawings agree everywhere between the sources -/
+example : ∃ ms', skipFamily wSkip wI wMs [] = .ok ms' ∧
+    (∀ m' ∈ ms', ∀ x, wSkip.contains x = true → m'.get? x = none) ∧
+    ∀ n, wSkip.contains n = false → ∀ t, InHull wI t →
+      (renderAt wI ms' t n).Perm (renderAt wI wMs t n) ∧ advanceAt wI ms' t n = advanceAt wI wMs t n :=
+  C13_vf_render_total wSkip wI wMs (rankOf wCert) [] (w_total wSkip) (fun o ho => by cases ho) (fun o ho => by cases ho)
+
+def toErr {ε α} : Except ε α → Option ε
+  | .ok _ => none
+  | .error e => some e
+
+theorem eq_error_of_toErr {ε α} {x : Except ε α} {e : ε} (h : toErr x = some e) : x = .error e := by
+  cases x with
+  | ok _ => cases h
+  | error e' => rw [Option.some.inj h]
+
+/-- one source, one glyph `A` whose component refers to `_x`; `_x` is in the skip list but in no source -/
+def dMs : Masters := [[("A", ⟨"A", 500, 0, [], [⟨"_x", Affine.id⟩], []⟩)]]
+def dI : Inst := ⟨[0], 0⟩
+
+theorem dOrder : orderI dMs (allNames dMs) = .ok ["A"] := by
+  have : allNames dMs = ["A"] := by decide +kernel
+  rw [this]
+  simp [orderI, depthsI, compDepth, maxComponentDepth, depthGlyph, depthComps, dMs, GlyphSet.get?, alookup, List.mergeSort]
+
+/-- **the hypothesis `SkipRefs` of `skipFamily_ok` cannot be dropped** (witness): a family that meets every hypothesis of
+    `C13_vf_render` (`WFSkip`) on which the model of the filter fails with `MissingComponentError` — a component refers to a
+    skipped glyph that does not exist.  The real `SkipExportGlyphsIFilter` raises `MissingComponentError('_x')` on the same
+    input (`decomposeCompositeGlyph` is called with `skipMissing=False`; run against /repo). -/
+theorem dangling_witness :
+    WFSkip dI dMs (rankOf [("A", 1)]) ∧ skipFamily ["_x"] dI dMs = .error (.missing "_x") ∧ ¬ SkipRefs dI dMs ["_x"] := by
+  refine ⟨famCertBase_sound dI dMs _ (by decide +kernel), ?_, ?_⟩
+  · rw [skipFamily_eval ["_x"] dI dMs _ (by decide) dOrder]
+    apply eq_error_of_toErr
+    decide +kernel
+  · intro h
+    have := h (dMs.getD 0 []) (by simp [dMs]) "A" _ (by simp [dMs, GlyphSet.get?, alookup]; rfl) ⟨"_x", Affine.id⟩
+      (by simp) (by decide)
+    revert this
+    decide +kernel
+
+/-- a glyph stored under a key that is not its name (`"A" ↦ glyph named "B"`, with a component `B`): only the model can be
+    given such a glyph set — ufo2ft's are keyed by `glyph.name` — and `getMaxComponentDepth` then reports a cycle -/
+def nMs : Masters := [[("A", ⟨"B", 500, 0, [], [⟨"B", Affine.id⟩], []⟩), ("B", ⟨"B", 500, 0, [wBox 100], [], []⟩)]]
+
+/-- **the hypothesis `Named` of `skipFamily_ok` cannot be dropped** (witness, model only) -/
+theorem unnamed_witness :
+    WFSkip dI nMs (rankOf [("A", 1), ("B", 0)]) ∧ skipFamily ["B"] dI nMs = .error .cyclic := by
+  refine ⟨famCertBase_sound dI nMs _ (by decide +kernel), ?_⟩
+  have hn : allNames nMs = ["A", "B"] := by decide +kernel
+  have ho : orderI nMs ["A", "B"] = .error .cyclic := by
+    simp [orderI, depthsI, compDepth, maxComponentDepth, depthGlyph, depthComps, nMs, GlyphSet.get?, alookup]
+  unfold skipFamily skipI runI
+  rw [if_neg (by decide)]
+  dsimp only
+  rw [hn, ho]
 
 end Ufo2ft.C13
